@@ -186,6 +186,18 @@ end
 ZC :: 7
 zm := 8
 zmb := "g"
+zgadd :: fn p, q -> do
+    p + q
+end
+zgtup :: fn p, q -> do
+    (p, 1) + (q, 2)
+end
+zgneg :: fn p -> do
+    (-(p, 1))
+end
+zgcmp :: fn p, q -> do
+    (p, 1.0) < (q, 2.0)
+end
 ZT :: (1, 2)
 Zb :: blob {
     a: int,
@@ -737,6 +749,12 @@ C03_KINDS = {
     "field-type":     ('(Zb { a: "s", b: "x" })', None),
     "param-type":     (None, ['zz7 :: fn q: int do', 'end', 'zz7(true)']),
     "void-store":     (None, ['zz6 := zvoid()']),
+    # mismatches that only show when a generic (un-annotated) function is instantiated at the call
+    "generic-add":        ('zgadd(1, "a")', None),
+    "generic-tuple-add":  ('zgtup("a", true)', None),
+    "generic-tuple-add2": ('zgtup(1, 2.0)', None),
+    "generic-tuple-neg":  ('zgneg("a")', None),
+    "generic-tuple-cmp":  ('zgcmp(true, false)', None),
     "ret-type":       (None, None),      # needs the slot's return type: see c03_plants
     # compound assignment on a type without that operator, also with the SAME variable on both sides
     "compound-self-bool-add": (None, ['zc1 := true', 'zc1 += zc1']),
@@ -767,14 +785,14 @@ def c03_plants(tmpl, kinds=None):
         if ex:
             for i, info in es:
                 d = info_dict(info)
-                if d.get("pure") == "1" and k in ("arity", "arg-type"):
-                    continue        # calling the impure zimp in a pure function is rejected for another reason
+                if d.get("pure") == "1" and (k in ("arity", "arg-type") or k.startswith("generic")):
+                    continue        # calling an impure function in a pure function is rejected for another reason
                 out.append((k, "E", i, info, ex))
             for i, info in ss:
                 d = info_dict(info)
                 if d["where"] == "global":
                     continue
-                if d.get("pure") == "1" and k in ("arity", "arg-type"):
+                if d.get("pure") == "1" and (k in ("arity", "arg-type") or k.startswith("generic")):
                     continue
                 out.append((k, "S", i, info, [ex]))       # unused expression statement
         if st:
@@ -1006,7 +1024,9 @@ def multi_file_blob_cases(r, n=12):
             bn, "".join("    %s: %s,\n" % (f, ta[f]) for f in fa), bn, bn, ", ".join("%s: %s" % (f, lit[ta[f]]) for f in fa))
         uses = " ".join("print(p.%s)" % f for f in fb[:1])
         m = ("use a\nprint: fn *X -> void : external\n%s :: blob {\n%s}\nsum :: fn p: %s do\n    %s\nend\nstart :: fn do\n    sum(a.origin())\nend\n"
-             % (bn, "".join("    %s: %s,\n" % (f, tb[f]) for f in fb), bn, "\n    ".join("print(p.%s)" % f for f in fb)))
+             % (bn, "".join("    %s: %s,\n" % (f, tb[f]) for f in fb), bn,
+                "\n    ".join("print(%s)" % {"int": "p.%s + 1", "float": "p.%s + 1.0", "str": 'p.%s + "s"', "bool": "not p.%s"}[tb[f]] % f
+                               for f in fb)))
         out.append(("same-named blob in two modules: " + mode, m, {"/m/a.sy": a}, mode != "same"))
     return out
 
